@@ -578,6 +578,154 @@ def library_cases():
     return cases
 
 
+# ---- the shipped `self check input` as rail 0, followed by a scripted second input rail and the
+# generation: {"lib": "input_chain", "ver", "exc", "blocks": [bool per turn]} (the judge blocks a
+# user message that carries the marker)
+
+CHAIN_YML = """
+models: []
+{rails}enable_rails_exceptions: {exc}
+prompts:
+  - task: self_check_input
+    content: "JUDGE-INPUT: {{{{ user_input }}}}"
+core:
+  embedding_search_provider:
+    name: verif
+"""
+CHAIN_V1_CO = """
+define flow second rail
+  $second = execute second_rail
+"""
+CHAIN_V2_CO = """
+import core
+import guardrails
+import nemoguardrails.library.self_check.input_check
+
+flow main
+  activate answering
+
+flow answering
+  user said something as $ref
+  $answer = ..."Answer the user: {$ref.transcript}"
+  bot say $answer
+
+flow input rails $input_text
+  self check input
+  await SecondRailAction(text=$input_text)
+"""
+
+
+def run_input_chain_case(case):
+    logging.disable(logging.CRITICAL)
+    sys.path.insert(0, C.REPO)
+    from nemoguardrails import LLMRails, RailsConfig
+    from nemoguardrails.actions import action
+    from tests.utils import FakeLLM
+
+    exc = "true" if case["exc"] else "false"
+    if case["ver"] == "v2":
+        config = RailsConfig.from_content(CHAIN_V2_CO, 'colang_version: "2.x"\n' + CHAIN_YML.format(rails="", exc=exc))
+    else:
+        rails = "rails:\n  input:\n    flows: [self check input, second rail]\n"
+        config = RailsConfig.from_content(CHAIN_V1_CO, CHAIN_YML.format(rails=rails, exc=exc))
+    config.config_path = ensure_cfg_dir()
+    log = {"turn": 0, "seq": []}
+
+    class Judge(FakeLLM):
+        def _reply(self, prompt):
+            text = prompt if isinstance(prompt, str) else json.dumps(prompt, default=str)
+            if "JUDGE-INPUT: " in text:
+                log["seq"].append("J")
+                return "Yes" if JUDGE_MARK in text.split("JUDGE-INPUT: ", 1)[1] else "No"
+            log["seq"].append("G")
+            a = f"L{log['turn']}x0z"
+            return f'"{a}"' if case["ver"] == "v2" else a
+
+        def _call(self, prompt, stop=None, run_manager=None, **kw):
+            return self._reply(prompt)
+
+        async def _acall(self, prompt, stop=None, run_manager=None, **kw):
+            return self._reply(prompt)
+
+    app = LLMRails(config, llm=Judge(responses=[]))
+
+    @action(name="second_rail", is_system_action=True)
+    async def second_rail_v1(context=None):
+        log["seq"].append("R")
+        return True
+
+    async def second_rail_v2(text=None):
+        log["seq"].append("R")
+        return True
+
+    if case["ver"] == "v2":
+        app.register_action(second_rail_v2, "SecondRailAction")
+    else:
+        app.register_action(second_rail_v1, "second_rail")
+    out, history, state = [], [], {}
+    for t, b in enumerate(case["blocks"]):
+        log.update(turn=t, seq=[])
+        user = f"U{t}z {JUDGE_MARK}" if b else f"U{t}z"
+        try:
+            if case["ver"] == "v2":
+                res = app.generate(messages=[{"role": "user", "content": user}], state=state)
+                state = res.state
+                msg = res.response[0]
+                content = msg.get("content") or ""
+                utter = [] if content == "" else content.split("\n")
+                excs = [e.get("type") for e in msg.get("events", []) if str(e.get("type", "")).endswith("Exception")]
+            else:
+                history.append({"role": "user", "content": user})
+                res = app.generate(messages=history)
+                history.append(res)
+                if res.get("role") == "exception":
+                    utter, excs = [], [res["content"].get("type")]
+                else:
+                    utter, excs = [res.get("content")], []
+        except Exception as e:  # noqa: BLE001
+            out.append({"seq": list(log["seq"]), "error": f"{type(e).__name__}: {e}"[:300]})
+            break
+        out.append({"seq": list(log["seq"]), "utter": utter, "exceptions": excs})
+    return out
+
+
+def input_chain_oracle(case, observed):
+    """After the library rail rejects: no later rail call, no generation LLM call in that turn, the reply is
+    the refusal / the rail exception.  Otherwise: judge, second rail, generation - in this order."""
+    out = []
+    chan = f"{case['ver']}, enable_rails_exceptions={case['exc']}"
+    for t, (b, ob) in enumerate(zip(case["blocks"], observed)):
+        if "error" in ob:
+            out.append(("library-self-check-input-chain-raised", f"{chan}, turn {t}: {ob['error']}", t))
+            break
+        seq = ob["seq"]
+        if b:
+            if seq[:1] != ["J"]:
+                out.append(("library-self-check-input-not-called-first", f"{chan}, turn {t}: calls {seq}", t))
+            elif "R" in seq[1:]:
+                out.append(("library-self-check-input-later-rail-runs-after-reject",
+                            f"{chan}, turn {t}: `self check input` rejected, calls {seq} (J judge, R second rail, G generation), "
+                            f"reply utterances {ob['utter']} exceptions {ob['exceptions']}", t))
+            elif "G" in seq[1:]:
+                out.append(("library-self-check-input-generation-after-reject",
+                            f"{chan}, turn {t}: `self check input` rejected, calls {seq}, utterances {ob['utter']}", t))
+            elif case["exc"] and ob["exceptions"] != ["InputRailException"]:
+                out.append(("library-self-check-input-no-exception", f"{chan}, turn {t}: exceptions {ob['exceptions']} utterances {ob['utter']}", t))
+            elif not case["exc"] and ob["utter"] != [LIB_REFUSAL]:
+                out.append(("library-self-check-input-no-refusal", f"{chan}, turn {t}: utterances {ob['utter']}", t))
+        else:
+            if seq != ["J", "R", "G"] or ob["utter"] != [f"L{t}x0z"]:
+                out.append(("library-self-check-input-accepted-turn-differs",
+                            f"{chan}, turn {t}: calls {seq}, utterances {ob['utter']}", t))
+    return out
+
+
+def input_chain_cases():
+    return [{"lib": "input_chain", "ver": ver, "exc": exc, "blocks": blocks}
+            for ver in ("v1", "v2") for exc in (False, True)
+            for blocks in ([True], [False, True, False], [True, True, False], [False, False, True, True])]
+
+
 # ---- the library rails driven by a JUDGE whose verdict is a function of the prompt it is shown
 # (marker present => block), with texts of edge sizes: the rail must be shown the COMPLETE text
 # that is later released (or the text is refused / the turn fails closed)
@@ -715,9 +863,34 @@ def library_judge_oracle(case, observed):
     return out
 
 
-def library_judge_cases():
+def library_judge_cases(rail):
     return [{"lib": "judge", "rail": rail, "ver": ver, "size": size, "pos": pos}
-            for rail in ("output", "input") for ver in ("v1", "v2") for size in JUDGE_SIZES for pos in JUDGE_POS]
+            for ver in ("v1", "v2") for size in JUDGE_SIZES for pos in JUDGE_POS]
+
+
+def run_any_library_case(c):
+    kind = c.get("lib")
+    if kind == "judge":
+        return run_library_judge_case(c)
+    if kind == "input_chain":
+        return run_input_chain_case(c)
+    return run_library_case(c)
+
+
+def any_library_oracle(c, observed):
+    kind = c.get("lib")
+    if kind == "judge":
+        return library_judge_oracle(c, observed)
+    if kind == "input_chain":
+        return input_chain_oracle(c, observed)
+    return library_oracle(c, observed)
+
+
+def library_cases_for(pid):
+    """The shipped library rails each property probes."""
+    if pid == "C01":
+        return input_chain_cases() + library_judge_cases("input")
+    return library_cases() + library_judge_cases("output")
 
 
 def run_library_probe(cases, tag, jobs=8):
@@ -749,6 +922,46 @@ def run_library_probe(cases, tag, jobs=8):
         for i, o in zip(idxs, json.load(open(pout))):
             results[i] = o
     return results, None
+
+
+# ---------------------------------------------------------------------------------------
+# parallel execution: chunks of cases in child processes (each under a shell timeout)
+
+
+def run_cases_parallel(cases, tag, jobs=None, timeout=900):
+    jobs = jobs or C.NPROC
+    d = os.path.join(C.BUILD, "pipe", tag)
+    os.makedirs(d, exist_ok=True)
+    # interleave so that every worker gets a similar mix (an LLMRails instance is built once per
+    # configuration and process; there are few configurations)
+    n_chunks = max(1, min(jobs, len(cases)))
+    chunks = [list(range(ci, len(cases), n_chunks)) for ci in range(n_chunks)]
+    procs = []
+    env = dict(os.environ)
+    env.update(C.impl_env())
+    for ci, idxs in enumerate(chunks):
+        pin, pout = os.path.join(d, f"in_{ci}.json"), os.path.join(d, f"out_{ci}.json")
+        with open(pin, "w") as f:
+            json.dump([cases[i] for i in idxs], f)
+        if os.path.exists(pout):
+            os.remove(pout)
+        errf = open(os.path.join(d, f"err_{ci}.log"), "w")
+        p = subprocess.Popen(["timeout", str(timeout), C.PY, "-m", "harness.pipe_driver", "--worker", pin, pout],
+                             cwd=C.VERIF, env=env, stdout=subprocess.DEVNULL, stderr=errf)
+        procs.append((p, idxs, pout, errf))
+    results = [None] * len(cases)
+    errors = []
+    for p, idxs, pout, errf in procs:
+        p.wait()
+        errf.close()
+        if p.returncode != 0 or not os.path.exists(pout):
+            tail = open(errf.name, errors="replace").read()[-1500:]
+            errors.append(f"worker rc={p.returncode}: {tail}")
+            continue
+        outs = json.load(open(pout))
+        for i, o in zip(idxs, outs):
+            results[i] = o
+    return results, errors
 
 
 def _worker(pin, pout):
@@ -1169,7 +1382,7 @@ def run_check(pid, gen, focus, oracle, tier, seed, replay, checker_cmd, rule, as
                     continue
                 cases.append(d["case"])
                 origin.append("corpus:" + fn)
-    lib_cases = (corpus_lib if library else []) + ((library_cases() + library_judge_cases()) if (library and not replay) else [])
+    lib_cases = (corpus_lib if library else []) + (library_cases_for(pid) if (library and not replay) else [])
     if replay:
         d = json.load(open(replay))
         r = d.get("replay", d)
@@ -1279,7 +1492,7 @@ def run_check(pid, gen, focus, oracle, tier, seed, replay, checker_cmd, rule, as
         else:
             by = {}
             for lc, lo in zip(lib_cases, lib_obs):
-                for sig, what, _t in (library_judge_oracle(lc, lo) if lc.get("lib") == "judge" else library_oracle(lc, lo)):
+                for sig, what, _t in any_library_oracle(lc, lo):
                     lib_viol += 1
                     by.setdefault(sig, []).append((what, lc, lo))
             for sig, lst in by.items():
@@ -1398,7 +1611,7 @@ if __name__ == "__main__":
         _outs = []
         for _c in _cases:
             try:
-                _outs.append(run_library_judge_case(_c) if _c.get("lib") == "judge" else run_library_case(_c))
+                _outs.append(run_any_library_case(_c))
             except Exception as _e:  # noqa: BLE001
                 _outs.append([{"error": f"driver: {type(_e).__name__}: {_e}"[:300]}])
         with open(sys.argv[3], "w") as _f:
